@@ -62,6 +62,7 @@ func (l *vLedger) AcquireGzipWriter() *gzip.Writer {
 	l.point()
 	w := l.inner.AcquireGzipWriter()
 	l.take(w)
+	l.point()
 	return w
 }
 func (l *vLedger) ReleaseGzipWriter(w *gzip.Writer) {
@@ -69,6 +70,7 @@ func (l *vLedger) ReleaseGzipWriter(w *gzip.Writer) {
 	l.give(w)
 	w.Reset(l.trap) // any later use of the released object lands in the trap
 	l.inner.ReleaseGzipWriter(w)
+	l.point() // what the caller does next may already meet the object in other hands
 }
 func (l *vLedger) AcquireGzipReader() *gzip.Reader {
 	l.point()
@@ -76,11 +78,17 @@ func (l *vLedger) AcquireGzipReader() *gzip.Reader {
 	l.take(r)
 	return r
 }
-func (l *vLedger) ReleaseGzipReader(r *gzip.Reader) { l.point(); l.give(r); l.inner.ReleaseGzipReader(r) }
+func (l *vLedger) ReleaseGzipReader(r *gzip.Reader) {
+	l.point()
+	l.give(r)
+	l.inner.ReleaseGzipReader(r)
+	l.point()
+}
 func (l *vLedger) AcquireZlibWriter() *zlib.Writer {
 	l.point()
 	w := l.inner.AcquireZlibWriter()
 	l.take(w)
+	l.point()
 	return w
 }
 func (l *vLedger) ReleaseZlibWriter(w *zlib.Writer) {
@@ -88,6 +96,7 @@ func (l *vLedger) ReleaseZlibWriter(w *zlib.Writer) {
 	l.give(w)
 	w.Reset(l.trap)
 	l.inner.ReleaseZlibWriter(w)
+	l.point()
 }
 
 // clean: everything acquired was released exactly once and not used afterwards
